@@ -174,6 +174,7 @@ func init() {
 			c.Fixture("mini", "dispatch-shape", false, func(p *load.Program, tb *kinds.Table) *report.RuleResult {
 				r := small.DispatchShapeIn(p, "pkg/parser", "pkg/version")
 				r.Merge(small.DispatchShapeIn(p, "pkg/badparser", "pkg/version"), "bad:")
+				r.Merge(small.DispatchShapeIn(p, "pkg/badparser2", "pkg/version"), "bad2:")
 				return r
 			})
 			c.Fixture("mini", "version-flow", false, func(p *load.Program, tb *kinds.Table) *report.RuleResult { return small.VersionFlow(p) })
